@@ -105,7 +105,20 @@ class Ref(object):
         tags = tuple(inh) + tuple(node[1])
         if self.selected(tags):
             return True
-        return self.any_child_selected(path)
+        return self.any_child_selected(path) or self.any_inner_own_match(node, tags)
+
+    def any_inner_own_match(self, node, tags):
+        """an inner rule/outline whose OWN effective tags satisfy the expression although none of its scenarios
+        does (e.g. 't and not u' with @t on the outline and @u on its examples): the statement is silent on
+        whether the enclosing containers count as selected -> callers only relax the hook-log comparison"""
+        for it in node[3]:
+            if it[0] in ("R", "O"):
+                t2 = tuple(tags) + tuple(x for x in it[1] if x != P.PTAG)
+                if self.selected(t2):
+                    return True
+            if it[0] == "R" and self.any_inner_own_match(it, tuple(tags) + tuple(it[1])):
+                return True
+        return False
 
     def any_child_selected(self, path):
         for p, (k, i) in self.info.items():
